@@ -354,7 +354,7 @@ def c08(tier):
             plan.append(plan_line(p["fen"], "depth %d" % d, tt=rnd.choice(["fresh", "warm"]), tag="m1"))
     # announcements: shallow searches over many sparse and game positions (where the all-moves-pruned value shows), real session histories:
     # the same root repeated, then its table reused
-    n = 150000 if full else 9000
+    n = 60000 if full else 9000
     rnd.shuffle(pool)
     for i in range(n):
         p = pool[i % len(pool)]          # every pool position before any repeats
